@@ -75,6 +75,15 @@ pub fn classify(o: &crate::sim::Outcome<crate::runner::MpcOut>) -> String {
     }
 }
 
+/// An outcome caused by the environment of the check (temp-file I/O failure, disk full), not by the
+/// engine: such executions are inconclusive, never violations.
+pub fn env_failure(o: &crate::sim::Outcome<crate::runner::MpcOut>) -> bool {
+    match o {
+        crate::sim::Outcome::Done(Err(e)) => e.starts_with("TempFile(") || e.starts_with("TempFileSerDe(Io") || e.contains("StorageFull") || e.contains("No space left on device"),
+        _ => false,
+    }
+}
+
 /// First identifiers of a Debug-formatted error, e.g. `MpcError(InvalidOutputMac`.
 pub fn err_class(e: &str) -> String {
     let mut out = String::new();
